@@ -2,6 +2,7 @@ package props
 
 import (
 	"go/types"
+	"nsa/core"
 
 	"nsa/rules"
 
@@ -32,6 +33,50 @@ func isEvalCall(call *ssa.Call) bool {
 func obEvalReadOnly(c *rules.Ctx, id string) {
 	ob := c.R.Ob(id, "effects/W2-eval", "a number obtained by evaluating an expression (a shallow copy sharing its digits with the variable's value), or queued as a sender/receiver amount, is never rewritten in place (except reset to zero)", 60)
 	c.EvaluatedNumbersReadOnly(ob, "exec", execRoots(c, ob), isEvalCall)
+	c.ShallowCopyNeverMutated(ob, "exec", execRoots(c, ob))
+}
+
+func obDescend(c *rules.Ctx, id string) {
+	ob := c.R.Ob(id, "ctrl/descend", "a traversal arm that hands a child sub-tree to a call on some path does so on every path that ends in a successful return", 10)
+	// the traversal that collects the balances to fetch legitimately skips what cannot matter
+	// (an unbounded overdraft needs no balance): it is judged by the prefetch rules of C10
+	skip := map[*ssa.Function]bool{}
+	if ir := c.IRoles(ob); ir != nil {
+		skip[ir.Prefetch] = true
+		skip[ir.PrefetchStmt] = true
+	}
+	c.ChildrenDescendedOnEveryPath(ob, map[string]bool{relInterp: true}, []string{"Source", "Destination", "KeptOrDestination", "Statement", "SentValue", "ValueExpr", "AllotmentValue"}, skip)
+}
+
+func obFetchFirst(c *rules.Ctx, id string) {
+	ob := c.R.Ob(id, "ctrl/fetch-first", "on every path from RunProgram, a read of the balance cache comes after a fetch from the store (summaries over the call graph)", 1)
+	ir := c.IRoles(ob)
+	if ir == nil {
+		return
+	}
+	// the leaf readers: functions that return a number read from the cache and do not get it
+	// from another such function
+	r := c.Roles(ob)
+	if r == nil {
+		return
+	}
+	leaf := func(fn *ssa.Function) bool {
+		if !r.IsBalanceReader(fn) {
+			return false
+		}
+		for _, ci := range core.Calls(fn) {
+			if sc := ci.Common().StaticCallee(); sc != nil && sc != fn && r.IsBalanceReader(sc) {
+				return false
+			}
+		}
+		return true
+	}
+	c.NoReadBeforeFetch(ob, c.Fn(ob, relInterp, "RunProgram"), ir.Fetch, leaf)
+}
+
+func obReaderUnaltered(c *rules.Ctx, id string, r *rules.Roles) {
+	ob := c.R.Ob(id, "origin/reader-unaltered", "the balance reader that bounds a draw returns cached balance minus pending draws and nothing else (no clamp before the overdraft grant is added)", 1)
+	c.ReaderReturnsUnaltered(ob, r)
 }
 
 func obPushBack(c *rules.Ctx, id string, r *rules.Roles) {
